@@ -114,6 +114,14 @@ func (fx *FnCtx) eval(st *State, e ast.Expr) Val {
 		fx.safety(st, "slice-bounds", "(and (<= 0 "+l+") (<= "+l+" "+h+") (<= "+h+" "+bound+"))", x)
 		r := fx.sliceVal(v, lo, hi)
 		r.Ty = fx.typeOf(e)
+		if strings.HasPrefix(r.S, "Slice_") {
+			// name the result and relate its elements to the source at the elem level
+			c := fx.sc.Fresh("sliced", r.S)
+			st.facts = append(st.facts, "(= "+c+" "+r.T+")")
+			el := fx.sc.elemFn(r.S)
+			st.facts = append(st.facts, fmt.Sprintf("(forall ((i Int)) (! (= (%s %s i) (%s %s (+ %s i))) :pattern ((%s %s i))))", el, c, el, v.T, l, el, c))
+			r.T = c
+		}
 		return r
 	case *ast.CallExpr:
 		vs := fx.evalCall(st, x)
@@ -546,8 +554,13 @@ func (fx *FnCtx) assign(st *State, lhs ast.Expr, v Val) {
 			fx.safety(st, "index", "(and (<= 0 "+idx.T+") (< "+idx.T+" (len_"+base.S+" "+base.T+")))", lhs)
 			nv := fmt.Sprintf("(mk_%s (store (arr_%s %s) (+ (off_%s %s) %s) %s) (off_%s %s) (len_%s %s) (cap_%s %s))",
 				base.S, base.S, base.T, base.S, base.T, idx.T, v.T, base.S, base.T, base.S, base.T, base.S, base.T)
+			// name the result and relate its elements to the old value at the elem level
+			c := fx.sc.Fresh("updated", base.S)
+			st.facts = append(st.facts, "(= "+c+" "+nv+")")
+			el := fx.sc.elemFn(base.S)
+			st.facts = append(st.facts, fmt.Sprintf("(forall ((i Int)) (! (= (%s %s i) (ite (= i %s) %s (%s %s i))) :pattern ((%s %s i))))", el, c, idx.T, v.T, el, base.T, el, c))
 			// write back into the slice variable / field (value semantics)
-			fx.assign(st, x.X, Val{nv, base.S, base.Ty})
+			fx.assign(st, x.X, Val{c, base.S, base.Ty})
 		case *types.Array:
 			es := fx.sc.SortOf(u.Elem())
 			v = fx.coerce(v, es, u.Elem())
